@@ -3,6 +3,7 @@ package props
 import (
 	"go/token"
 	"go/types"
+	"sort"
 	"strings"
 
 	"golang.org/x/tools/go/ssa"
@@ -413,6 +414,31 @@ func c07R3(p *engine.Prog, r *engine.Report) {
 		}
 	}
 	r.Floor("C07-R3", 8, "counted: 4 call sites x (limit, seed)")
+	// ---------------- R6: the compressed certificate carries, per signature, that vote's own signed fields
+	if f := mustFunc(p, r, "blockchain/types", "FullBlockCert.Compress"); f != nil {
+		n := 0
+		for _, a := range allocsOf(f, "BlockCertSignature") {
+			hdr := engine.LoopHeaderOf(a.Block())
+			if hdr == nil {
+				continue
+			}
+			lb := loopBlocks(hdr)
+			var flds []string
+			st := fieldStoresOn(a)
+			for fld := range st {
+				flds = append(flds, fld)
+			}
+			sort.Strings(flds)
+			for _, fld := range flds {
+				n++
+				r.Check(dependsOnLoopPosition(st[fld].Val, lb), "C07-R6", "FullBlockCert.Compress|signature."+fld+" taken from the vote being compressed", p.InstrPos(st[fld]), "depends on the loop's vote", "every compressed signature gets the same "+fld+" (taken outside the loop): the acceptor rebuilds the signed vote from it, so honest votes whose "+fld+" differs recover to garbage signers and a genuine quorum is rejected")
+			}
+		}
+		if n == 0 {
+			r.Und("C07-R6", "FullBlockCert.Compress|per-signature record", p.Pos(f.Pos()), "no BlockCertSignature built inside a loop")
+		}
+	}
+	r.Floor("C07-R6", 3, "Signature, Upgrade, TurnOffline")
 }
 
 func c07R4(p *engine.Prog, r *engine.Report) {
